@@ -147,12 +147,13 @@ class StoreRunner:
         return {} if self.cache_mb is None else {'cache_size_mb': self.cache_mb}
 
     def prepare(self, start: int):
+        self.extras = start == 3  # StoreGen.tla Flavour
         if start == 0:
             return
-        ids = (0, 0) if start == 1 else (3, 1)
+        ids = (3, 1) if start == 2 else (0, 0)
         with self.TS.create(base_file=self.path) as ts:
-            ts.add(make_payload(1, ids[0], self.big))
-            ts.add(make_payload(2, ids[1], self.big))
+            ts.add(make_payload(1, ids[0], self.big, extras=self.extras))
+            ts.add(make_payload(2, ids[1], self.big, extras=self.extras))
 
     # -- one spec event on the real store -> (ok, val, errclass, errmsg)
     def apply(self, ev):
@@ -185,18 +186,18 @@ class StoreRunner:
                 return 'yes', '-', None, None
             if op == 'add':
                 if arg == '-':  # read-only session
-                    ts.add(make_payload(1, 0, self.big))
+                    ts.add(make_payload(1, 0, self.big, extras=self.extras))
                     return 'yes', '-', None, None
                 p, fid = arg
-                return 'yes', int(ts.add(make_payload(p, fid, self.big))), None, None
+                return 'yes', int(ts.add(make_payload(p, fid, self.big, extras=self.extras))), None, None
             if op == 'addbad':
                 has_ids = self.spec_indexable
                 if arg == 'missing_required':
-                    t = make_payload(9, 99 if has_ids else 0, self.big, missing='starting_mass')
+                    t = make_payload(9, 99 if has_ids else 0, self.big, missing='starting_mass', extras=self.extras)
                 elif arg == 'fieldset_mismatch':
-                    t = make_payload(9, 99 if has_ids else 0, self.big, extras=True)
+                    t = make_payload(9, 99 if has_ids else 0, self.big, extras=not self.extras)
                 elif arg == 'id_inconsistent':
-                    t = make_payload(9, 0 if self.spec_indexable else 99, self.big)
+                    t = make_payload(9, 0 if self.spec_indexable else 99, self.big, extras=self.extras)
                 else:
                     raise MachineryError(f'unknown reject kind {arg}')
                 ts.add(t)
